@@ -30,6 +30,7 @@ type c06Spec struct {
 	Rep    int       `json:"rep,omitempty"` // every symbol is repeated Rep days (block word)
 	Word   []string  `json:"word,omitempty"`
 	LWord  []float64 `json:"lword,omitempty"` // series mode: one level per word day
+	Lat    float64   `json:"lat,omitempty"`   // latitude (0 = default 52.52); polar sites use a sunshine-hours column
 }
 
 func repeatWord(w []string, rep int) []string {
@@ -90,6 +91,20 @@ func c06Specs(tier string, seed int) []c06Spec {
 				b.ET = 1 // Haude with a saturation deficit of exactly 0: potential ET is 0, no rain -> no surface flux
 			}
 			out = append(out, c06Spec{Base: b, GWMode: "series", Levels: lv, Alpha: []string{sym}, D: d})
+		}
+	}
+	// polar and tropical sites in their dark / bright season, every ET method, bare soil and a young crop
+	for _, lat := range []float64{80, 69, -70, 1} {
+		for _, start := range []string{"2001-12-05", "2001-06-10"} {
+			for _, et := range []int{1, 2, 3, 4} {
+				for _, crop := range []string{"", "SW"} {
+					b := e1Base{Soil: "loam12", GW: 99, InitW: 0.7, InitN: 20, Crop: crop, ET: et, Start: start}
+					if crop != "" {
+						b.WarmUp = 25
+					}
+					out = append(out, c06Spec{Base: b, GWMode: "const", Alpha: []string{"calm-dark", "no-sun-no-rad", "frost", "drizzle"}, D: 2, Lat: lat})
+				}
+			}
 		}
 	}
 	// profiles whose horizons have very different wilting points, started just above each band's dryness limit
@@ -357,6 +372,10 @@ func c06Run(raw json.RawMessage, c *mc.Ctx) {
 	ndays := 2 + warm + nword
 	p := e1Project(sp.Base, ndays)
 	p.Config["OutputIntervall"] = "1"
+	if sp.Lat != 0 {
+		p.Config["Latitude"] = fmt.Sprint(sp.Lat)
+		p.SunColumn = true
+	}
 	if b, err := os.ReadFile(filepath.Join(proj.RepoDir(), "examples", "project", "myP", "dailyout_conf.yml")); err == nil {
 		p.DailyCols = string(b)
 	}
